@@ -445,7 +445,9 @@ def _do_mutate(ctx, pool, objs, kind, o):
             r.shuffle(perm)
             obj.reorder(perm)
         elif kind == 'data':
-            keys = sorted(obj.obs_descriptors.keys())
+            # sorting is only meaningful (and documented) for descriptors with one scalar label per observation
+            keys = sorted(k for k, v in obj.obs_descriptors.items()
+                          if all(isinstance(norm(x), (str, int, float)) for x in v))
             if not keys:
                 return
             obj.sort_by(keys[r.randrange(len(keys))])
